@@ -57,6 +57,12 @@ def parse_file(path, settings, source_name):
     return {'txns': out}
 
 
+def parse_two(path_a, settings_a, path_b, settings_b):
+    """Two sources read one after the other in one process (what `tally up` does); returns the second one's result."""
+    parse_file(path_a, settings_a, settings_a.get('name'))
+    return parse_file(path_b, settings_b, settings_b.get('name'))
+
+
 def rid_of(desc):
     import re
     m = re.findall(r'r(\d+)', desc)
@@ -176,6 +182,27 @@ def build_case(rng, tier):
         rows2[k]['raw'] = raw
         pos = 'only' if len(rows) == 1 else 'first' if k == 0 else 'last' if k == len(rows) - 1 else 'middle'
         case['faults'].append({'class': cls, 'row': rows[k]['id'], 'position': pos, 'text': st.render(lay, rows2)})
+    if rng.random() < 0.35:
+        # a second source whose amount cells are textually the same but read under the other conventions:
+        # what the reader makes of a file must not depend on a file it read before
+        lay2 = dict(lay)
+        lay2['decimal'] = ',' if lay['decimal'] == '.' else '.'
+        lay2['sign'] = rng.choice(['', '-', '+'])
+        lay2['negate_setting'] = False
+        lay2['has_header'] = rng.random() < 0.5
+        ambiguous = ['12.50', '1,234', '1.234', '7,25', '1,234.56', '1.234,56', '100', '(3.50)', '$2,000']
+        rows2 = []
+        for r in rows:
+            r2 = dict(r)
+            r2['amount_text'] = st.amount_cell(lay, r) if rng.random() < 0.6 else rng.choice(ambiguous)
+            rows2.append(r2)
+        rows1 = [dict(r) for r in rows]
+        for r1 in rows1:
+            if rng.random() < 0.4:
+                r1['amount_text'] = rng.choice(ambiguous)
+        if lay['delimiter'] != 'regex' or all(' ' not in (r.get('amount_text') or '') for r in rows1 + rows2):
+            case['pair'] = {'settings_a': st.source_settings(lay, name, 'data/a.csv'), 'text_a': st.render(lay, rows1),
+                            'settings_b': st.source_settings(lay2, 'Second', 'data/b.csv'), 'text_b': st.render(lay2, rows2)}
     text = case['text']
     lines = st.render_lines(lay, rows)
     # record end offsets (in characters) so that "rows that end before the cut" is well defined
@@ -279,6 +306,24 @@ def execute(case, scratch):
                 violations.append({'invariant': 'ISO', 'signature': {'class': f['class'], 'what': 'damaged-row-became-transaction'},
                                    'witness': 'row r%d damaged (%s) still became a transaction: %s' % (rid, f['class'], util.canon(mine[0])[:300]),
                                    'schedule': sched(f)})
+        pair = case.get('pair')
+        if pair:
+            util.write_world(world, {'data/a.csv': pair['text_a'], 'data/b.csv': pair['text_b']})
+            pa, pb = os.path.join(world, 'data/a.csv'), os.path.join(world, 'data/b.csv')
+            r = proc.run_func(world, lambda: parse_file(pb, pair['settings_b'], 'Second'), {'net': 'down'}, ctl_parent=ctlp)
+            alone = r.result
+            r = proc.run_func(world, lambda: parse_two(pa, pair['settings_a'], pb, pair['settings_b']), {'net': 'down'}, ctl_parent=ctlp)
+            after = r.result
+            count['parses'] += 3
+            count['pairs'] = count.get('pairs', 0) + 1
+            log.append(['pair', util.digest(alone), util.digest(after)])
+            if alone is None or after is None:
+                raise proc.HarnessError('pair parse process failed')
+            if util.canon(alone) != util.canon(after):
+                violations.append({'invariant': 'SEQ', 'signature': {'what': 'second-source-depends-on-first'},
+                                   'witness': 'the same file gives %s when read alone and %s when read after another source (decimal %r then %r)'
+                                              % (util.canon(alone)[:300], util.canon(after)[:300], lay['decimal'], ',' if lay['decimal'] == '.' else '.'),
+                                   'schedule': {'property': ID, 'case': dict(case, faults=[])}})
     finally:
         shutil.rmtree(scratch, ignore_errors=True)
     dig = util.digest(log)
@@ -315,5 +360,6 @@ def coverage(count, sets, samples, tier):
         'rule': RULE,
         'samples': samples,
         'files_rendered': count.get('files', 0),
+        'two_source_sequences': count.get('pairs', 0),
         'faults_fired': {k[6:]: v for k, v in count.items() if k.startswith('fired.')},
     }
